@@ -214,6 +214,12 @@ def run(ctx):
     fns += [k for k in p.bodies if k.startswith("L::machine::Machine::load::{closure")]
     sites = panics.enumerate_sites(p, sorted(set(fns)))
     chk.floor("panic-capable sites reachable from compile/load/display", len(sites), 20)
+    # calls to std routines that panic on a contract violation (the interpreter takes unmodelled foreign functions as total)
+    for c_ in panics.contract_calls(p, fns):
+        chk.ob("contract/%s/%s#%d" % (c_["fn"], c_["api"].rsplit("::", 2)[-2].split("<")[0] + "::" + c_["api"].rsplit("::", 1)[-1], c_["k"]),
+               c_["ok"], "a std routine with a panic contract is called only where the call site guarantees the contract (%s)" % c_["rule"],
+               "%s:%s" % (p.bodies[c_["fn"]].file, c_["ln"]), "%s: %s" % (c_["api"], c_["why"]),
+               "call sites of contract-bearing std routines in the analysed functions; whole-range forms discharged by type")
     hit_fns = {k[0] for k in I.block_hits}
     # cross-stage normalisation for the label look-ups
     from .. import symkeys
